@@ -6,6 +6,22 @@ var realAll = []string{"every package of /repo (scratch copy, mechanically instr
 
 func init() {
 	register(&propCfg{
+		id: "C07", worker: "c07", goCmd: "go",
+		instrument: []string{"-maps", "-clock", "-tick"},
+		tiers: map[string]tierCfg{
+			"quick":    {cases: 60_000, timeout: 20 * time.Minute},
+			"thorough": {cases: 6_000_000, timeout: 120 * time.Minute},
+		},
+		level: "exploration",
+		rule: "case = one tape: a GSUB or GPOS table (1..6 lookups over all subtable types and formats the encoders support; 3/4 'wild': out-of-range lookup/sequence/class/mark-set indices, empty replacement lists, self reference, > 64 nested actions) and a GDEF table are encoded, in half of the cases damaged by 1..3 faults of the stored-data catalogue, and read back; the case proceeds only with what gtab.Read / gdef.Read accept. One Context then receives 2..8 Apply calls (sequences of 0..200 glyphs over the full glyph-id range, biased to glyphs the rules mention; texts of 0..2 unique runes per glyph; lookups in list order, a subset, or any order incl. out-of-range); every call is repeated on a fresh Context and on a fresh Context under a second map order. In half of the cases the tables are also attached to a generated font and 2..5 strings are laid out on one Layouter and on fresh ones. Non-trivial = cases whose table was accepted; distinct = distinct digest of the tables read back.",
+		real:  realAll,
+		stubs: []string{"stored bytes of the GSUB/GPOS/GDEF tables (fault catalogue between encode and read)", "map iteration order", "step counter (deterministic termination budget of 2e8 steps per call)", "call history on gtab.Context and sfnt.Layouter"},
+		assume: []string{
+			"shapes the encoder refuses (panic in Encode) and bytes the reader rejects do not proceed; a reader panic is counted and left to C02",
+			"vertical advance, device tables and GPOS type 5 are not generated",
+		},
+	})
+	register(&propCfg{
 		id: "C15", worker: "c15", goCmd: "go",
 		instrument: []string{"-maps", "-clock", "-tick"},
 		tiers: map[string]tierCfg{
